@@ -11,6 +11,7 @@
   `bytesJoinBeforeEncode`, witness `[b'a', b'bcd']`).
 -/
 import Proofs.XmlSpelling
+import Proofs.XmlRoundtrip
 import Props.Facts08Good
 import SpyneModel.Generated.Facts01
 namespace SpyneModel.Props.C01spelling
@@ -54,6 +55,14 @@ theorem respelled_child (ns name : Text) (attrs : List (Text × Text)) (pre post
 theorem chunked_bytes_written_as_concatenation (enc : BinEnc) (chunks : List (List Nat)) :
     chunksText facts08 factsDoc enc chunks = leafToText facts08 (.bytes enc) (.bytes chunks.flatten) :=
   chunksText_join facts08 factsDoc (by decide) enc chunks
+
+/-- another spelling many toolkits use: an element carries xsi:type naming ITS OWN declared class (whatever
+    customised variant of the class the position is declared with — the model compares classes by name, the
+    code through `__orig__`): the decoder continues with exactly that class -/
+theorem own_xsi_type_resolves_to_the_declared_class (I : Iface) (hI : ifaceWf I = true) (c : ClassDef) (hc : c ∈ I.classes)
+    (dns : Text) (db : Option Text) (dfs : List (Text × Ty)) (docc : Occ) :
+    resolveXsi factsXml I (.obj c.name dns db dfs docc) (clark c.ns c.name) = some (ClassDef.toTy c) :=
+  resolveXsi_class hI hc c.name dns db dfs docc (by unfold Iface.isSub Hier.isSub; simp)
 
 /-! ### non-vacuity: the demo document of the seed -/
 def exTitle : Raw := .elem "urn:d".toList "title".toList []
